@@ -44,7 +44,7 @@ def run(ctx):
     ctx.assumptions += [
         "the outcome-class theorems are about the decision trees regenerated from source by exhaustive path enumeration (69 constructor paths, 25 propagation paths per leaf); the translator is self-checked each run on every outcome class",
         "definedness (never NaN/inf) is proved over the reals only for the propagation stage of a returned state (C13_defined_partial); the constructor's denominators and all binary64 overflow are sampled by the oracle",
-        "'in every other case a state is returned' is proved over the reals for healthy orbits (C13_healthy_is_answered*: decay guards at the requested time, eL^2 <= 4/25, osculating perigee a (1 - eL) >= 1.005 earth radii imply PropOk j with j <= 5, through the convergence proof of the Kepler loop and rk >= 1); and in terms of the input only (C13_answered_at_epoch_or_drag_free*): every accepted near-earth set with e0 <= 0.39 is answered at its epoch, and at every time when B* = 0; with drag away from epoch, and for e0 in (0.39, 0.47), it is sampled",
+        "'in every other case a state is returned' is proved over the reals for healthy orbits (C13_healthy_is_answered*: decay guards at the requested time, eL^2 <= 4/25, osculating perigee a (1 - eL) >= 1.005 earth radii imply PropOk j with j <= 5, through the convergence proof of the Kepler loop and rk >= 1); and in terms of the input only (C13_answered_at_epoch_or_drag_free*): every accepted near-earth set with e0 <= 0.39 is answered at its epoch, and at every time when B* = 0; and, wider (C13_accepted_is_answered_at_epoch_or_drag_free, C13_healthy_is_answered_wide): EVERY accepted element set outside the island (mean motion 6.4..18 rev/day, e0 <= 0.9, which forces e0 <= 0.467) is answered at its epoch and drag-free at any time, at one of the exits 0..6; with drag away from epoch it is sampled",
         "decay exceptions are modelled as classes: Exception('Satellite crashed'/'e**2 >= 1') = PropCrash, ValueError = PropEccLow",
     ]
     tr, defs = numeric.regen(ctx, "sgp4")
